@@ -136,6 +136,30 @@ def replay_archive_path(name):
 ALPH = ["/", ":", ".", "a", "C", "\\"]
 
 
+def spec_sanitize(e, s):
+    """-> list of characters kept, or None when the name must be refused"""
+    def is_(i, lits):
+        ch = s.chars[i]
+        for lit in lits:
+            if e.branch(e.compare(ast.Eq(), ch.idx, ALPH.index(lit))):
+                return True
+        return False
+
+    i = 0
+    while i < len(s.chars) and is_(i, ["/"]):
+        i += 1
+    if i + 1 < len(s.chars) + 0 and i + 1 <= len(s.chars) - 1 and is_(i, ["a", "C"]) and is_(i + 1, [":"]):
+        i += 2
+        while i < len(s.chars) and is_(i, ["/"]):
+            i += 1
+    rest = s.chars[i:]
+    if rest and is_(i, ["/"]):
+        return None
+    if len(rest) >= 2 and is_(i, ["a", "C"]) and is_(i + 1, [":"]):
+        return None
+    return rest
+
+
 def sanitize(n):
     """every string of exactly n characters over {'/', ':', '.', 'a', 'C', backslash}"""
     from vf.pysym import strdom as SD
@@ -150,17 +174,24 @@ def sanitize(n):
             e.assume(e.compare(ast.Lt(), c, len(ALPH)))
         s = SD.AStr([SD.Ch(c, ALPH) for c in cs])
         z = __import__("vf.pysym.values", fromlist=["SObj"]).SObj(e.cls("py7zr.py7zr", "SevenZipFile"))
+        want = spec_sanitize(e, s)
         try:
             out = e.method(z, "_sanitize_archive_arcname", s)
         except ModelRaise as ex:
-            return dict(exc=ex.name)
-        return dict(out=out)
+            return dict(exc=ex.name, want=want)
+        return dict(out=out, want=want)
 
     def post(o):
+        # independent definition: drop every leading separator, then one drive prefix and the separators behind it; what
+        # is left is stored unless it is still absolute / still has a drive prefix (only then AbsolutePathError)
         if "exc" in o:
-            return [o["exc"] == "AbsolutePathError"]
+            return [o["exc"] == "AbsolutePathError", o["want"] is None]
         out = o["out"]
-        c = []
+        if o["want"] is None:
+            return False
+        c = [len(out.chars) == len(o["want"])]
+        for a, b in zip(out.chars, o["want"]):
+            c.append(eng.compare(ast.Eq(), a.idx, b.idx))
         if len(out.chars) >= 1:
             c.append(z3.Not(eng.lift(out.chars[0].idx) == ALPH.index("/")))          # not absolute
         if len(out.chars) >= 2:
